@@ -1,5 +1,6 @@
 """C02 - PCBO comparison constraints.  Rules R02.1 - R02.11 (DESIGN 4.2)."""
 import ast
+import re
 
 from ..pymodel import AnalysisError, FuncInfo, parent
 from ..astutil import (canon, canon_src, src, is_name, is_attr, is_const, const_num, call_name, walk_no_nested,
@@ -93,6 +94,9 @@ def record_balance(ctx, rid, fn, rel):
 
 def rules(ctx):
     P, R = ctx.prog, ctx.res
+    from .C14 import derived_fields
+    ctx.rule('R02.18', "a field of model objects outside the frozen bookkeeping fields that is written together with the terms / a bookkeeping field is written by every other mutator of that state (no stale memo)", floor=1)
+    derived_fields(ctx, 'R02.18')
     E = Effects(P, R)
     ctx.rule('R02.1', "each add_constraint_R_zero records exactly {R: +1} on every path", floor=6)
     ctx.rule('R02.2', "is_solution_valid reads the written keys with the comparator the key names", floor=7)
@@ -115,7 +119,10 @@ def rules(ctx):
     ctx.rule('R02.12', "slack registers are sized from -X only where X <= 0 is forced, and the unary-slack "
                        "shortcut (X - sum of slack bits)^2 only where min X >= 0 is forced", floor=3)
 
+    ctx.rule('R02.17', "a special-case branch that reads the polynomial's terms by position or through the inverted "
+                       "value->key table is guarded by the exact number of terms", floor=5)
     meths = rel_methods(P)
+    arity_guards(ctx, 'R02.17', [P.func('_pcbo._special_constraints_eq_zero'), P.func('_pcbo._special_constraints_le_zero')])
 
     # ---------------------------------------------------------------- R02.1
     for rel, fn in meths.items():
@@ -137,6 +144,7 @@ def rules(ctx):
 
     # ---------------------------------------------------------------- R02.3
     ancilla_rules(ctx, 'R02.3', 'qubovert._pcbo')
+    copy_ctor_counter(ctx, 'R02.3')
 
     # ------------------------------------------------------- R02.4 / R02.5
     E.build()
@@ -288,6 +296,44 @@ def merge_discipline(ctx, rid, fns):
                  % (bad[0][1], getattr(bad[0][0], 'lineno', '?')))
 
 
+def copy_ctor_counter(ctx, rid):
+    """The PCBO/PCSO copy constructor (copy(), the non-in-place operators) carries the ancilla counter over."""
+    P, R = ctx.prog, ctx.res
+    init = P.func('PCBO.__init__')
+    sn = R.self_name(init)
+    va = init.node.args.vararg.arg if init.node.args.vararg else 'args'
+    g = cfg_of(init.node)
+    good = []
+    for n in g.stmts():
+        if not isinstance(n, ast.Assign):
+            continue
+        pairs = []
+        for t in n.targets:
+            if isinstance(t, ast.Tuple) and isinstance(n.value, ast.Tuple) and len(t.elts) == len(n.value.elts):
+                pairs += list(zip(t.elts, n.value.elts))
+            else:
+                pairs.append((t, n.value))
+        for t, v in pairs:
+            if isinstance(t, ast.Attribute) and is_name(t.value, sn) and t.attr == '_ancilla' and \
+                    src(v) in ('%s[0].num_ancillas' % va, '%s[0]._ancilla' % va):
+                facts = []
+                for tt, pol, o in g.edge_dominators(n):
+                    facts += compare_atoms(tt, pol)
+                if any(f[0] == 'truthy' and 'isinstance(%s[0]' % va in f[1] for f in facts if len(f) == 2):
+                    good.append(n)
+    ok = False
+    if good:
+        # on the copy path no later store resets the counter
+        later = [m for m in g.stmts() if isinstance(m, ast.Assign) and m not in good and any(
+            isinstance(x, ast.Attribute) and x.attr == '_ancilla' and is_name(x.value, sn)
+            for t in m.targets for x in ([t] if not isinstance(t, ast.Tuple) else t.elts))]
+        ok = not any(g.reaches(gd, m) for gd in good for m in later)
+    ctx.inst(rid, init, good[0] if good else 'copy branch', ok,
+             "the copy takes over the source model's ancilla counter" if ok else
+             "the copy branch of the constructor does not take over the source's ancilla counter: a copy / arithmetic result "
+             "of a model that already holds ancillas starts again at __a0 and the next constraint reuses their names")
+
+
 def record_not_shared(ctx, rid):
     """The PCBO/PCSO copy constructor takes the constraints through the copying getter (R19.3)."""
     P, R = ctx.prog, ctx.res
@@ -317,6 +363,78 @@ def record_not_shared(ctx, rid):
     ok = bool(rets) and all(isinstance(r.value, ast.DictComp) and isinstance(r.value.value, ast.ListComp) for r in rets)
     ctx.inst(rid, gt, rets[0] if rets else 'return', ok,
              "the getter builds fresh lists" if ok else "the constraints getter does not build fresh per-relation lists")
+
+
+def arity_guards(ctx, rid, fns):
+    """Positional reads X[c] of X = tuple(Q.keys()/values()/items()) and lookups X[c] in the inverted table
+    X = {v: k for k, v in Q.items()} cover a fixed number of terms of Q: the branch must force len(Q) to that number
+    (otherwise the remaining terms of the constraint are silently dropped from the penalty)."""
+    from ..astutil import expand_names
+    for fn in fns:
+        g = cfg_of(fn.node)
+        seqs, inv = {}, {}
+        for n in walk_no_nested(strip_docstring(fn.node.body)):
+            if not isinstance(n, ast.Assign):
+                continue
+            pairs = []
+            t = n.targets[0]
+            if isinstance(t, ast.Name):
+                pairs = [(t.id, n.value)]
+            elif isinstance(t, ast.Tuple) and isinstance(n.value, ast.Tuple) and len(t.elts) == len(n.value.elts):
+                pairs = [(a.id, b) for a, b in zip(t.elts, n.value.elts) if isinstance(a, ast.Name)]
+            for name, v in pairs:
+                if isinstance(v, ast.Call) and call_name(v) in ('tuple', 'list', 'sorted') and len(v.args) == 1:
+                    q = v.args[0]
+                    if isinstance(q, ast.Call) and isinstance(q.func, ast.Attribute) and q.func.attr in ('keys', 'values', 'items') \
+                            and not q.args:
+                        q = q.func.value
+                    seqs[name] = src(expand_names(fn.node, q))
+                elif isinstance(v, ast.DictComp) and len(v.generators) == 1:
+                    it = v.generators[0].iter
+                    if isinstance(it, ast.Call) and isinstance(it.func, ast.Attribute) and it.func.attr == 'items':
+                        inv[name] = src(expand_names(fn.node, it.func.value))
+        for n in walk_no_nested(strip_docstring(fn.node.body)):
+            if not (isinstance(n, ast.Subscript) and isinstance(n.value, ast.Name) and isinstance(n.ctx, ast.Load)):
+                continue
+            x = n.value.id
+            if x not in seqs and x not in inv:
+                continue
+            idx = const_num(n.slice)
+            if idx is None or idx != int(idx):
+                continue
+            st = enclosing_stmt(n)
+            # reads inside the branch test itself are ordered by the test's own short-circuit; only body reads here
+            if isinstance(st, (ast.If, ast.While)) and any(n is m for m in ast.walk(st.test)):
+                continue
+            facts = []
+            for t, pol, o in g.edge_dominators(st):
+                facts += compare_atoms(expand_names(fn.node, t), pol)
+            q = seqs.get(x) or inv.get(x)
+            sizes = [f for f in facts if len(f) == 3 and f[1] == '==' and f[0] in ('len(%s)' % q, '%s.num_terms' % q)
+                     and re.fullmatch(r'-?\d+', f[2])]
+            if x in seqs:
+                need = int(idx) + 1 if idx >= 0 else -int(idx)
+                ok = any(int(f[2]) >= need for f in sizes)
+                ctx.inst(rid, fn, n, ok,
+                         "positional read under len(%s) == %s" % (q, sizes[0][2]) if ok else
+                         "`%s` reads term %d of %s on a branch that does not fix the number of terms of %s: the "
+                         "special form is applied to polynomials with other terms, which are dropped from the penalty"
+                         % (src(n), idx, q, q))
+            else:
+                sets = [f for f in facts if len(f) == 3 and f[1] == '==' and f[0] == 'set(%s.values())' % q]
+                ok = False
+                for f in sets:
+                    try:
+                        lit = ast.literal_eval(f[2])
+                    except Exception:
+                        continue
+                    if isinstance(lit, set) and idx in lit and any(int(z[2]) == len(lit) for z in sizes):
+                        ok = True
+                ctx.inst(rid, fn, n, ok,
+                         "value->key lookup under len(%s) == number of distinct values" % q if ok else
+                         "`%s` looks a term of %s up by its coefficient, but the branch does not force len(%s) to equal the "
+                         "number of distinct coefficients: terms with equal coefficients overwrite each other and are "
+                         "dropped from the penalty" % (src(n), q, q))
 
 
 def slack_guards(ctx, rid, fns):
